@@ -1,9 +1,13 @@
-"""C06 -- catchment delineation is upstream reachability on the flow grid (structural clauses)."""
+"""C06 -- catchment delineation is upstream reachability on the flow grid (structural clauses).
+
+All kernel clauses are decided on the normalised functions (cnorm: helpers inlined, temporaries substituted,
+while/switch/ternary forms unified) by symbolic evaluation of loop bodies (ceval) and semantic comparison of the
+recorded stores and path conditions (cq); no clause compares source text."""
 import ast
 
 from ..core import AnalysisError
 from ..cfront import strip, text
-from .. import ckern, xlayer, pyxread, ceval
+from .. import ckern, xlayer, pyxread, ceval, cq, cnorm
 from ..ceval import CEval, find_all, loop_parts, body_stmts, loop_var, stores_to
 from ..formula import Canon, Ratio, Undecided, show, num
 from ..pyfront import Mod, dotted, const_value
@@ -12,49 +16,81 @@ EXPLANATION = (
     "Upstream and downstream are inverse relations iff three tables agree: the ESRI code table (Python literal), the "
     "neighbour layout of c_neighbours (slot k = 1+ix+3(1+iy) holds cell (col+ix, row+iy)), and the pairing of codes "
     "with neighbours (downstream: code j with neighbour j; upstream: neighbour j against the mirrored code 8-j, with "
-    "k(-ix,-iy) = 8-k(ix,iy) as a polynomial identity), all compared by equality.  The rule set checks these, the "
-    "negative sentinels (-2 sink, -1 default stored on every path, -1 off-grid and unused upstream slots, -1 "
-    "initialised outputs filtered with >= 0), that the area store is dominated by the not-an-inlet test, that the "
-    "outlet is appended once and only after something drained to it, that every walk is capped with an error code "
-    "the wrapper raises, and that the two step-length sites of the flow-path kernel agree (1 for steps of 1 or ncols "
-    "cells, sqrt(2) otherwise) and the river trace decomposes cells with % ncols and / ncols.  That the breadth-first "
-    "expansion visits exactly the reachable set is not computed; hole filling is scipy's.")
+    "k(-ix,-iy) = 8-k(ix,iy) as a polynomial identity), all compared by equality.  The kernels are normalised "
+    "(helpers inlined, temporaries substituted) and their loop bodies evaluated symbolically; the rule set compares "
+    "the recorded stores and their path conditions with the reference: the negative sentinels (-2 sink, -1 default "
+    "stored on every path, -1 off-grid and unused upstream slots, -1 initialised outputs filtered with >= 0), the "
+    "area store happens only when no inlet matches, the outlet is appended once and only after something drained to "
+    "it, every store is preceded by a capacity test that returns an error the wrapper raises, the two step-length "
+    "sites of the flow-path kernel add 1 for steps of 1 or ncols cells and sqrt(2) otherwise, and the river trace "
+    "decomposes cells with % ncols and / ncols.  That the breadth-first expansion visits exactly the reachable set "
+    "is not computed; hole filling is scipy's.")
 
 ESRI = {(0, 0): 32, (0, 1): 64, (0, 2): 128, (1, 0): 16, (1, 1): 0, (1, 2): 1, (2, 0): 8, (2, 1): 4, (2, 2): 2}
 
 
-def downstream_sentinels(K):
-    """(default -1 stored unconditionally before the look-up, sink flagged -2) for c_downstream"""
-    dn = K["fns"]["c_downstream"]
-    dl = find_all(dn["body"], lambda n: n.get("kind") == "ForStmt")
-    dmain = dl[0]
-    div = loop_var(dmain)
-    dstm = body_stmts(loop_parts(dmain)[3])
-    look = [l for l in dl[1:] if stores_to(l, "idxdown")]
-    top_stores = [k_ for k_, s in enumerate(dstm) if s.get("kind") == "BinaryOperator" and s.get("opcode") == "=" and text(s["inner"][0]).replace(" ", "") == f"idxdown[{div}]"]
-    okd = bool(top_stores) and text(dstm[top_stores[0]]["inner"][1]).replace(" ", "") in ("-1",) and (not look or top_stores[0] < dstm.index(look[0]))
-    sink = [s for s in dstm if s.get("kind") == "IfStmt" and text(s["inner"][0]).replace(" ", "").strip("()") in ("fd==0", "0==fd")]
-    oks = False
-    if sink:
-        st = stores_to(sink[0], "idxdown")
-        oks = len(st) == 1 and text(st[0]["inner"][1]).replace(" ", "") == "-2" and bool(find_all(sink[0], lambda n: n.get("kind") == "ContinueStmt"))
-    return okd, oks, dmain.get("_line")
+def _top_loops(fn):
+    return [s for s in body_stmts(fn["body"]) if s.get("kind") in ("ForStmt", "WhileStmt")]
+
+
+def _main_loop(fn, file, what):
+    ls = _top_loops(fn)
+    if len(ls) != 1:
+        # validation loops (range checks that only return) may precede the main loop: keep the loops that store something
+        ls = [l for l in ls if cnorm.writes(l)[1]]
+    if len(ls) != 1:
+        raise AnalysisError(f"{file}: {fn['name']}: {what} not found ({len(ls)} candidate loops)")
+    return ls[0]
+
+
+def downstream_summary(K, repo):
+    """effects of one iteration of c_downstream's main loop -> dict used by C06 and C11"""
+    dn = ckern.normalised(K, "c_downstream", repo)
+    main = _main_loop(dn, dn["file"], "cell loop")
+    iv = loop_var(main)
+    ce = cq.evaluate(body_stmts(loop_parts(main)[3]))
+    st = cq.stores(ce, "idxdown")
+    at_i = [e for e in st if cq.same_expr(e.idx, ('sym', iv))]
+    default = [e for e in at_i if e.op == "=" and cq.same_expr(e.val, "-1") and not e.loops and
+               not [c for c in e.conds if not _is_range_guard(c)]]
+    first_is_default = bool(at_i) and bool(default) and at_i[0] is default[0]
+    sink = [e for e in at_i if e.op == "=" and cq.same_expr(e.val, "-2")]
+    return {"fn": dn, "main": main, "iv": iv, "ce": ce, "stores": st, "at_i": at_i, "default": default,
+            "default_first": first_is_default, "sink": sink}
+
+
+def _is_range_guard(c):
+    """a recorded (cond, truth) pair that is the false branch of an error-return test"""
+    return c[1] is False
+
+
+def downstream_sentinels(K, repo="/repo"):
+    """(default -1 stored unconditionally before the look-up, sink flagged -2, line) for c_downstream (used by C11)"""
+    s = downstream_summary(K, repo)
+    fd0 = False
+    for e in s["sink"]:
+        for c, t in e.conds:
+            if t and cq.same_cond(c, "flowdir[idxup[%s]]==0" % s["iv"], True):
+                fd0 = True
+    return s["default_first"], bool(s["sink"]) and fd0, s["main"].get("_line")
 
 
 def run(rep):
     rep.rule("R06.a", "direction tables: ESRI codes on the 3x3 layout, neighbour slot formula, code/neighbour pairing (j vs j downstream, j vs 8-j upstream) by equality")
     rep.rule("R06.b", "sentinels: -2 sink, -1 default stored on every path, -1 off-grid / unused slots, -1 initialised outputs filtered with >= 0")
-    rep.rule("R06.c", "area store dominated by the not-an-inlet test; outlet appended once, after something drained to it")
-    rep.rule("R06.d", "every walk capped (counter against the buffer size) with an error code the wrapper raises; capacity = caller's nval")
+    rep.rule("R06.c", "area store only when no inlet matches; outlet appended once, after something drained to it")
+    rep.rule("R06.d", "every walk / store capped with an error code the wrapper raises; capacity = caller's nval")
     rep.rule("R06.e", "step length 1 for steps of 1 or ncols cells else sqrt(2), same at both sites; river dx,dy from % ncols and / ncols")
+    rep.assume("distinct pointer parameters of a kernel do not overlap (the shims pass distinct ndarray buffers)")
     K = ckern.analyze(rep.repo)
     fns = K["fns"]
-    for need in ("c_neighbours", "c_downstream", "c_upstream", "c_delineate_area", "c_delineate_river", "c_delineate_flowpathlengths_in_catchment", "getnxy"):
+    for need in ("c_neighbours", "c_downstream", "c_upstream", "c_delineate_area", "c_delineate_river", "c_delineate_flowpathlengths_in_catchment"):
         if need not in fns:
             raise AnalysisError(f"gis kernels: {need} not found")
+    N = lambda q: ckern.normalised(K, q, rep.repo)
     gfile, cfile = fns["c_neighbours"]["file"], fns["c_delineate_area"]["file"]
     mod = Mod(rep.repo, "gis/grid.py")
-    rep.unit(f"{gfile}: c_neighbours, c_downstream, c_upstream; {cfile}: c_delineate_area, c_delineate_river, c_delineate_flowpathlengths_in_catchment; gis/grid.py")
+    rep.unit(f"{gfile}: c_neighbours, c_downstream, c_upstream; {cfile}: c_delineate_area, c_delineate_river, c_delineate_flowpathlengths_in_catchment (normalised); gis/grid.py")
 
     # ---------------- R06.a tables ----------------------------------------------------------------------------------------
     fdc = [n for n in mod.tree.body if isinstance(n, ast.Assign) and isinstance(n.targets[0], ast.Name) and n.targets[0].id == "FLOWDIRCODE"]
@@ -68,169 +104,221 @@ def run(rep):
                 table[(r, c)] = const_value(x)
     rep.check(table == ESRI, "R06.a", "gis/grid.py", "FLOWDIRCODE", "ESRI direction codes on the 3x3 layout (NW=32 N=64 NE=128 / W=16 0 E=1 / SW=8 S=4 SE=2)",
               f"found {table}", line=fdc[0].lineno)
-    nb = fns["c_neighbours"]
-    loops = find_all(nb["body"], lambda n: n.get("kind") == "ForStmt")
-    if len(loops) != 2:
-        raise AnalysisError(f"{gfile}: c_neighbours loops not found")
-    outer_v, inner_v = loop_var(loops[0]), loop_var(loops[1])
-    rng = [(text(loop_parts(l)[0]).replace(" ", ""), text(loop_parts(l)[1]).replace(" ", "")) for l in loops]
-    okr = all(i.endswith("=-1") and c.endswith("<2") for i, c in rng)
-    rep.check(okr, "R06.a", gfile, "c_neighbours", "offsets ix, iy range over -1..1", str(rng), line=loops[0].get("_line"))
-    istm = body_stmts(loop_parts(loops[1])[3])
+
+    # ---- c_neighbours: cell decomposition, offsets, slot formula -------------------------------------------------------------
+    nb = N("c_neighbours")
+    ntop = body_stmts(nb["body"])
+    outer = [s for s in ntop if s.get("kind") == "ForStmt"]
+    if len(outer) != 1:
+        raise AnalysisError(f"{gfile}: c_neighbours: offset loops not found")
+    outer = outer[0]
+    inner = [s for s in body_stmts(loop_parts(outer)[3]) if s.get("kind") == "ForStmt"]
+    if len(inner) != 1:
+        raise AnalysisError(f"{gfile}: c_neighbours: inner offset loop not found")
+    inner = inner[0]
+    lo_, li_ = cq.loop_range(outer, cq.preceding(ntop, outer)), cq.loop_range(inner, cq.preceding(body_stmts(loop_parts(outer)[3]), inner))
+    rep.check(cq.range_is(lo_, "-1", "1") and cq.range_is(li_, "-1", "1"), "R06.a", gfile, "c_neighbours", "offsets ix, iy range over -1..1",
+              f"outer {lo_ and (show(lo_['lo']) if lo_['lo'] else None, show(lo_['hi']) if lo_['hi'] else None)}", line=outer.get("_line"))
+    outer_v, inner_v = lo_["var"] if lo_ else loop_var(outer), li_["var"] if li_ else loop_var(inner)
+    # decomposition of the cell number before the loops (getnxy inlined): two scratch values, column then row
+    pre = cq.evaluate(cq.preceding(ntop, outer), oracle=lambda c: False)       # range guards not taken
+    scratch = [e for e in pre.effects if e.op == "=" and e.arr not in ("neighbours",)]
+    col = [e for e in scratch if cq.same_expr(e.val, "idxcell % ncols")]
+    okcol = len(col) == 1
+    row = []
+    if okcol:
+        cname, cidx = col[0].arr, col[0].idx
+        row = [e for e in scratch if e.arr == cname and e is not col[0] and cq.same_expr(e.val, "(idxcell - idxcell % ncols)/ncols")]
+    rep.check(okcol and len(row) == 1, "R06.a", gfile, "c_neighbours", "column = idx mod ncols, row = (idx - column) / ncols",
+              "; ".join(repr(e) for e in scratch)[:300], line=nb["line"])
+    if not (okcol and len(row) == 1):
+        return EXPLANATION
+    cname = col[0].arr
+
+    def cellarr(idx):
+        cn_ = Canon()
+        if cn_.ratio(idx) == cn_.ratio(col[0].idx):
+            return ('sym', 'COL')
+        if cn_.ratio(idx) == cn_.ratio(row[0].idx):
+            return ('sym', 'ROW')
+        raise Undecided(f"read of {cname}[{show(idx)}]")
+    istm = body_stmts(loop_parts(inner)[3])
     cn = Canon()
+    want_slot = cn.ratio(cq.parse(f"1 + {inner_v} + 3*(1 + {outer_v})"))
+    alt_slot = cn.ratio(cq.parse(f"1 + {outer_v} + 3*(1 + {inner_v})"))
     for centre, inside in ((True, None), (False, True), (False, False)):
         def oracle(c, centre=centre, inside=inside):
-            s_ = show(c)
-            if c[0] in ('and', 'or'):
+            if c[0] in ('and', 'or', 'not'):
                 from .c03 import _bool
                 return _bool(c, oracle)
             if c[0] == 'cmp':
                 a, b = show(c[2]), show(c[3])
-                if a in (outer_v, inner_v) and b == "0" and c[1] == "==":
-                    return centre
-                # range tests on nx / ny
-                return (not inside) if inside is not None else None
+                if {a, b} & {outer_v, inner_v} and {a, b} & {"0"} and c[1] in ("==", "!="):
+                    return centre if c[1] == "==" else not centre
+                # range tests on col+ix / row+iy: `< 0`, `> n-1`, `>= n` are "outside" tests, `>= 0`, `< n`, `<= n-1` "inside" tests
+                d = cq.cond_atoms(c, True)
+                if inside is None:
+                    return None
+                outside_form = _is_outside_test(c)
+                if outside_form is None:
+                    return None
+                return (not inside) if outside_form else inside
             return None
-        ce = CEval(oracle, {"nxy": lambda idx: ('sym', 'NX0') if idx == num(0) else ('sym', 'NY0')})
-        env = {"nx0": ('sym', 'NX0'), "ny0": ('sym', 'NY0')}
+        ce = CEval(oracle, {cname: cellarr})
         try:
-            ce._walk(istm, env, [])
+            ce._walk(istm, {}, [])
         except Undecided as ex:
-            rep.undecided("R06.a", gfile, "c_neighbours", "slot store", str(ex), line=loops[1].get("_line"))
+            rep.undecided("R06.a", gfile, "c_neighbours", "slot store", str(ex), line=inner.get("_line"))
             continue
         st = [e for e in ce.effects if e.arr == "neighbours"]
-        wantk = cn.ratio(('add', ('add', num(1), ('sym', inner_v)), ('mul', num(3), ('add', num(1), ('sym', outer_v)))))
-        okk = len(st) == 1 and cn.ratio(st[0].idx) == wantk
+        okk = len(st) == 1 and cn.ratio(st[0].idx) == want_slot
+        swapped = len(st) == 1 and cn.ratio(st[0].idx) == alt_slot
+        # which loop variable is the column offset: the one added to the column in the stored cell number
         if centre:
-            rep.check(okk and st[0].val == ('neg', num(1)) or okk and cn.ratio(st[0].val) == Ratio.const(-1), "R06.b", gfile, "c_neighbours", "centre slot holds -1", "", line=loops[1].get("_line"))
+            rep.check((okk or swapped) and cn.ratio(st[0].val) == Ratio.const(-1), "R06.b", gfile, "c_neighbours", "centre slot holds -1", "", line=inner.get("_line"))
         elif inside:
-            # which loop variable is the column offset: the one added to nx0
-            want = cn.ratio(('add', ('mul', ('add', ('sym', 'NY0'), ('sym', outer_v)), ('sym', 'ncols')), ('add', ('sym', 'NX0'), ('sym', inner_v))))
-            rep.check(okk and cn.ratio(st[0].val) == want, "R06.a", gfile, "c_neighbours",
+            want = cn.ratio(cq.parse(f"(ROW + {outer_v})*ncols + (COL + {inner_v})"))
+            want_sw = cn.ratio(cq.parse(f"(ROW + {inner_v})*ncols + (COL + {outer_v})"))
+            ok = (okk and cn.ratio(st[0].val) == want) or (swapped and cn.ratio(st[0].val) == want_sw)
+            rep.check(ok, "R06.a", gfile, "c_neighbours",
                       "slot k = 1+ix+3(1+iy) holds cell (row+iy)*ncols + (col+ix): rows of the layout are grid rows, columns are grid columns",
-                      f"slot {show(st[0].idx) if st else None} holds {show(st[0].val) if st else None}", line=loops[1].get("_line"))
+                      f"slot {show(st[0].idx) if st else None} holds {show(st[0].val) if st else None}", line=inner.get("_line"))
         else:
-            rep.check(okk and cn.ratio(st[0].val) == Ratio.const(-1), "R06.b", gfile, "c_neighbours", "off-grid neighbours are -1", "", line=loops[1].get("_line"))
-    # off-grid test covers the four sides
-    rt = [s for s in find_all(loops[1], lambda n: n.get("kind") == "IfStmt") if "ncols" in text(s["inner"][0]) and "nrows" in text(s["inner"][0])]
-    okrt = False
-    if rt:
-        t = text(rt[0]["inner"][0]).replace(" ", "")
-        okrt = all(x in t for x in ("nx<0", "ny<0")) and any(x in t for x in ("nx>ncols-1", "nx>=ncols")) and any(x in t for x in ("ny>nrows-1", "ny>=nrows"))
-    rep.check(okrt, "R06.b", gfile, "c_neighbours", "off-grid test: nx < 0, nx > ncols-1, ny < 0, ny > nrows-1", text(rt[0]["inner"][0]) if rt else "", line=nb["line"])
-    # mirror identity
+            rep.check((okk or swapped) and cn.ratio(st[0].val) == Ratio.const(-1), "R06.b", gfile, "c_neighbours", "off-grid neighbours are -1", "", line=inner.get("_line"))
+    # the off-grid test covers the four sides: collect the atoms of every test on col+ix / row+iy in the inner body
+    sides = set()
+    for n in find_all(inner, lambda n: n.get("kind") in ("IfStmt", "ConditionalOperator")):
+        try:
+            e = ceval.to_expr(n["inner"][0], {}, {cname: cellarr})
+        except Undecided:
+            continue
+        sides |= _sides(e, outer_v, inner_v)
+    rep.check(sides >= {"col<0", "col>=ncols", "row<0", "row>=nrows"}, "R06.b", gfile, "c_neighbours",
+              "off-grid test: col+ix < 0, col+ix > ncols-1, row+iy < 0, row+iy > nrows-1", f"sides tested: {sorted(sides)}", line=nb["line"])
     k = lambda ix, iy: 1 + ix + 3 * (1 + iy)
     rep.check(all(k(-ix, -iy) == 8 - k(ix, iy) for ix in (-1, 0, 1) for iy in (-1, 0, 1)), "R06.a", gfile, "c_neighbours", "k(-ix,-iy) = 8 - k(ix,iy): slot 8-j is the opposite direction of slot j", "")
 
-    # downstream pairing
-    dn = fns["c_downstream"]
-    dl = [l for l in find_all(dn["body"], lambda n: n.get("kind") == "ForStmt")]
-    dmain = dl[0]
-    div = loop_var(dmain)
-    dstm = body_stmts(loop_parts(dmain)[3])
-    look = [l for l in dl[1:] if stores_to(l, "idxdown")]
-    okp = False
-    det = "lookup loop not found"
-    if look:
-        jv = loop_var(look[0])
-        ifs = find_all(look[0], lambda n: n.get("kind") == "IfStmt")
-        if ifs:
-            c = strip(ifs[0]["inner"][0])
-            det = text(c)
-            st = stores_to(ifs[0], "idxdown")
-            okp = c.get("kind") == "BinaryOperator" and c.get("opcode") == "==" and \
-                {text(c["inner"][0]).replace(" ", ""), text(c["inner"][1]).replace(" ", "")} == {"fd", f"flowdircode[{jv}]"} and \
-                len(st) == 1 and text(st[0]["inner"][1]).replace(" ", "") == f"neighbours[{jv}]" and text(st[0]["inner"][0]).replace(" ", "") == f"idxdown[{div}]"
-            rng = (text(loop_parts(look[0])[0]).replace(" ", ""), text(loop_parts(look[0])[1]).replace(" ", ""))
-            okp = okp and rng == (f"{jv}=0", f"{jv}<9")
+    # ---- c_downstream ---------------------------------------------------------------------------------------------------------------------
+    D = downstream_summary(K, rep.repo)
+    div, dmain = D["iv"], D["main"]
+    fdx = f"flowdir[idxup[{div}]]"
+    look = [e for e in D["at_i"] if e.loops and e.op == "="]
+    okp, det = False, "no store of a neighbour inside a scan loop"
+    if len(look) == 1:
+        e = look[0]
+        jv = e.loops[-1]
+        det = repr(e)[:200]
+        okp = cq.same_expr(e.val, f"neighbours[{jv}]") and cq.holds(e.conds, f"{fdx} == flowdircode[{jv}]", True)
+        scan = [l for l in find_all(dmain, lambda n: n.get("kind") == "ForStmt") if l is not dmain and loop_var(l) == jv]
+        lr = cq.loop_range(scan[0], ()) if scan else None
+        okp = okp and cq.range_is(lr, "0", "8")
     rep.check(okp, "R06.a", gfile, "c_downstream", "downstream: code table entry j selects neighbour j (equality of codes, all 9 slots)", det, line=dmain.get("_line"))
-    fdd = [s for s in dstm if s.get("kind") == "BinaryOperator" and text(s["inner"][0]) == "fd"]
-    rep.check(bool(fdd) and text(fdd[0]["inner"][1]).replace(" ", "") == "flowdir[idxcell]", "R06.a", gfile, "c_downstream", "fd = flow code of the cell itself", "", line=dmain.get("_line"))
-    # sentinels of downstream: unconditional default store before the lookup, -2 on fd == 0
-    top_stores = [k_ for k_, s in enumerate(dstm) if s.get("kind") == "BinaryOperator" and s.get("opcode") == "=" and text(s["inner"][0]).replace(" ", "") == f"idxdown[{div}]"]
-    okd = bool(top_stores) and text(dstm[top_stores[0]]["inner"][1]).replace(" ", "") in ("-1",) and (not look or top_stores[0] < dstm.index(look[0]))
-    rep.check(okd, "R06.b", gfile, "c_downstream", "idxdown[i] = -1 stored unconditionally before the code look-up (unknown codes drain nowhere)",
+    nbc = cq.calls(D["ce"], "c_neighbours")
+    oknb = len(nbc) == 1 and len(nbc[0].val) == 4 and cq.same_expr(nbc[0].val[2], f"idxup[{div}]") and cq.same_expr(nbc[0].val[0], "nrows") and cq.same_expr(nbc[0].val[1], "ncols")
+    rep.check(oknb, "R06.a", gfile, "c_downstream", "neighbours and flow code are those of the cell itself", "", line=dmain.get("_line"))
+    rep.check(D["default_first"], "R06.b", gfile, "c_downstream", "idxdown[i] = -1 stored unconditionally before the code look-up (unknown codes drain nowhere)",
               "without the default an unknown code keeps a stale cell number: walks loop or jump to an unrelated cell", line=dmain.get("_line"))
-    sink = [s for s in dstm if s.get("kind") == "IfStmt" and text(s["inner"][0]).replace(" ", "").strip("()") in ("fd==0", "0==fd")]
-    oks = False
-    if sink:
-        st = stores_to(sink[0], "idxdown")
-        oks = len(st) == 1 and text(st[0]["inner"][1]).replace(" ", "") == "-2" and bool(find_all(sink[0], lambda n: n.get("kind") == "ContinueStmt"))
+    oks = len(D["sink"]) == 1 and cq.holds(D["sink"][0].conds, f"{fdx} == 0", True) and \
+        all(cq.excluded(e.conds, f"{fdx} == 0", True) for e in look)
     rep.check(oks, "R06.b", gfile, "c_downstream", "sinks (code 0) are flagged -2", "", line=dmain.get("_line"))
-    # upstream pairing
-    up = fns["c_upstream"]
-    ul = find_all(up["body"], lambda n: n.get("kind") == "ForStmt")
-    umain = ul[0]
+
+    # ---- c_upstream -------------------------------------------------------------------------------------------------------------------------
+    up = N("c_upstream")
+    umain = _main_loop(up, gfile, "cell loop")
     uiv = loop_var(umain)
-    scan = [l for l in ul[1:] if find_all(l, lambda n: n.get("kind") == "IfStmt")]
-    fill = [l for l in ul[1:] if l not in scan]
-    okup, det = False, "scan loop not found"
-    if scan:
-        jv = loop_var(scan[0])
-        ifs = find_all(scan[0], lambda n: n.get("kind") == "IfStmt" and stores_to(n, "idxup"))
-        if ifs:
-            c = strip(ifs[0]["inner"][0])
-            while c.get("kind") == "ParenExpr":
-                c = strip(c["inner"][0])
-            det = text(c)
-            sides = {text(c["inner"][0]).replace(" ", ""), text(c["inner"][1]).replace(" ", "")} if c.get("kind") == "BinaryOperator" else set()
-            st = stores_to(ifs[0], "idxup")
-            okup = c.get("kind") == "BinaryOperator" and c.get("opcode") == "==" and sides == {"fd", f"flowdircode[8-{jv}]"} and \
-                len(st) == 1 and text(st[0]["inner"][1]).replace(" ", "") == "idxneighb" and text(st[0]["inner"][0]).replace(" ", "") == f"idxup[9*{uiv}+k]"
-        fdn = [s for s in body_stmts(loop_parts(scan[0])[3]) if s.get("kind") == "BinaryOperator" and text(s["inner"][0]) == "fd"]
-        okup = okup and bool(fdn) and text(fdn[0]["inner"][1]).replace(" ", "") == "flowdir[idxneighb]"
-        nbd = [s for s in body_stmts(loop_parts(scan[0])[3]) if s.get("kind") == "BinaryOperator" and text(s["inner"][0]) == "idxneighb"]
-        okup = okup and bool(nbd) and text(nbd[0]["inner"][1]).replace(" ", "") == f"neighbours[{jv}]"
-    rep.check(okup, "R06.a", gfile, "c_upstream", "upstream: neighbour j drains into the cell iff its code equals the mirrored table entry 8-j (equality)",
-              f"test `{det}`", line=umain.get("_line"))
+    ustm = body_stmts(loop_parts(umain)[3])
+    uce = cq.evaluate(ustm)
+    ust = cq.stores(uce, "idxup")
+    found = [e for e in ust if e.op == "=" and not cq.same_expr(e.val, "-1")]
+    fill = [e for e in ust if e.op == "=" and cq.same_expr(e.val, "-1")]
+    okup, det, kname = False, "no store of a neighbour", None
+    if len(found) == 1 and found[0].loops:
+        e = found[0]
+        jv = e.loops[-1]
+        det = repr(e)[:260]
+        nbj = f"neighbours[{jv}]"
+        # slot index 9*i + K with K a plain counter
+        cnu = Canon()
+        off = cnu.ratio(e.idx) - cnu.ratio(cq.parse(f"9*{uiv}"))
+        ks = sorted(off.symbols())
+        okslot = len(ks) == 1 and off == Ratio.sym(ks[0])
+        kname = ks[0] if okslot else None
+        okup = okslot and cq.same_expr(e.val, nbj) and cq.holds(e.conds, f"flowdir[{nbj}] == flowdircode[8-{jv}]", True)
+        scan = [l for l in find_all(umain, lambda n: n.get("kind") == "ForStmt") if l is not umain and loop_var(l) == jv]
+        okup = okup and bool(scan) and cq.range_is(cq.loop_range(scan[0], ()), "0", "8")
+        if okup:
+            # the counter starts at 0 before the scan and steps once with the store
+            ini = [s for s in cq.preceding(ustm, scan[0]) if s.get("kind") == "BinaryOperator" and s.get("opcode") == "=" and
+                   text(s["inner"][0]) == kname and cq.same_expr(s["inner"][1], "0")]
+            blk = _innermost_block_with(scan[0], e.line, "idxup")
+            okup = bool(ini) and blk is not None and len(cq.steps_of({"kind": "CompoundStmt", "inner": blk}, kname)) == 1 and \
+                len(cq.steps_of(scan[0], kname)) == 1
+    rep.check(okup, "R06.a", gfile, "c_upstream", "upstream: neighbour j drains into the cell iff its code equals the mirrored table entry 8-j (equality); slots filled consecutively from 0",
+              det, line=umain.get("_line"))
+    okskip = len(found) == 1 and (cq.excluded(found[0].conds, f"neighbours[{found[0].loops[-1]}] == -1", True) or
+                                  cq.holds(found[0].conds, f"neighbours[{found[0].loops[-1]}] >= 0", True)) and \
+        cq.excluded(found[0].conds, f"flowdir[neighbours[{found[0].loops[-1]}]] == 0", True) if found and found[0].loops else False
+    rep.check(okskip, "R06.b", gfile, "c_upstream", "off-grid neighbours and sinks are skipped before the code test", det, line=umain.get("_line"))
     okf = False
-    if fill:
-        jv = loop_var(fill[0])
-        st = stores_to(fill[0], "idxup")
-        okf = text(loop_parts(fill[0])[0]).replace(" ", "") == f"{jv}=k" and text(loop_parts(fill[0])[1]).replace(" ", "") == f"{jv}<9" and \
-            len(st) == 1 and text(st[0]["inner"][1]).replace(" ", "") == "-1"
-    rep.check(okf, "R06.b", gfile, "c_upstream", "unused upstream slots are -1", "", line=umain.get("_line"))
-    skip_sink = any(s.get("kind") == "IfStmt" and text(s["inner"][0]).replace(" ", "").strip("()") in ("fd==0",) and find_all(s, lambda n: n.get("kind") == "ContinueStmt")
-                    for s in (body_stmts(loop_parts(scan[0])[3]) if scan else []))
-    skip_off = any(s.get("kind") == "IfStmt" and text(s["inner"][0]).replace(" ", "").strip("()") in ("idxneighb==-1", "idxneighb<0") and find_all(s, lambda n: n.get("kind") == "ContinueStmt")
-                   for s in (body_stmts(loop_parts(scan[0])[3]) if scan else []))
-    rep.check(skip_sink and skip_off, "R06.b", gfile, "c_upstream", "off-grid neighbours and sinks are skipped before the code test", "", line=umain.get("_line"))
+    if len(fill) == 1 and fill[0].loops and kname:
+        fe = fill[0]
+        fv = fe.loops[-1]
+        fl = [l for l in find_all(umain, lambda n: n.get("kind") == "ForStmt") if l is not umain and loop_var(l) == fv and stores_to(l, "idxup")
+              and not find_all(l, lambda n: n.get("kind") == "IfStmt")]
+        if fl:
+            lr = cq.loop_range(fl[0], cq.preceding(ustm, fl[0]))
+            start_ok = lr is not None and cq.same_expr(lr["hi"], "8") and lr["step"] == 1 and \
+                ((lr["lo"] is not None and cq.same_expr(lr["lo"], kname)) or (lr["lo"] is None and fv == kname))
+            okf = start_ok and cq.same_expr(fe.idx, f"9*{uiv} + {fv}")
+    rep.check(okf, "R06.b", gfile, "c_upstream", "unused upstream slots are -1", "; ".join(repr(e) for e in fill)[:200], line=umain.get("_line"))
 
     # ---------------- R06.c / R06.d delineate_area ----------------------------------------------------------------------------------
-    da = fns["c_delineate_area"]
-    wl = find_all(da["body"], lambda n: n.get("kind") == "WhileStmt")
+    da = N("c_delineate_area")
+    wl = [l for l in _top_loops(da) if stores_to(l, "idxcells_area")]
     if len(wl) != 1:
         raise AnalysisError(f"{cfile}: c_delineate_area main loop not found")
     wl = wl[0]
-    stores = stores_to(wl, "idxcells_area")
-    inlet_if = [s for s in find_all(wl, lambda n: n.get("kind") == "IfStmt") if text(s["inner"][0]).replace(" ", "").strip("()") in ("m==ninlets", "ninlets==m")]
-    okin = False
-    if inlet_if:
-        inside = stores_to(inlet_if[0], "idxcells_area") + stores_to(inlet_if[0], "buffer2")
-        okin = len(stores_to(inlet_if[0], "idxcells_area")) == 1 and len(stores_to(inlet_if[0], "buffer2")) == 1
-        # the inlet search loop breaks on a match, so m == ninlets means "no inlet matched"
-        srch = [l for l in find_all(wl, lambda n: n.get("kind") == "ForStmt") if loop_var(l) == "m" and find_all(l, lambda n: n.get("kind") == "BreakStmt")]
-        okin = okin and bool(srch) and "idxinlets[m]==idx" in text(find_all(srch[0], lambda n: n.get("kind") == "IfStmt")[0]["inner"][0]).replace(" ", "")
-    rep.check(okin, "R06.c", cfile, "c_delineate_area", "upstream cells are stored (area and next layer) only when they match no inlet", "", line=wl.get("_line"))
-    out_if = [s for s in body_stmts(loop_parts(wl)[3]) if s.get("kind") == "IfStmt" and text(s["inner"][0]).replace(" ", "").strip("()") in ("nlayer==0",)]
-    empty_ret = [k_ for k_, s in enumerate(body_stmts(loop_parts(wl)[3])) if s.get("kind") == "IfStmt" and text(s["inner"][0]).replace(" ", "").strip("()") == "nbuffer2==0"
-                 and find_all(s, lambda n: n.get("kind") == "ReturnStmt")]
-    okout = False
-    if out_if and empty_ret:
-        st = stores_to(out_if[0], "idxcells_area")
-        okout = len(st) == 1 and text(st[0]["inner"][1]).replace(" ", "") == "idxoutlet" and \
-            empty_ret[0] < body_stmts(loop_parts(wl)[3]).index(out_if[0]) and len([s for s in stores if text(s["inner"][1]).replace(" ", "") == "idxoutlet"]) == 1
-    rep.check(okout, "R06.c", cfile, "c_delineate_area", "outlet appended exactly once (first layer) and only after something drained to it", "", line=wl.get("_line"))
-    inc = find_all(wl, lambda n: n.get("kind") == "UnaryOperator" and n.get("opcode") == "++" and text(n["inner"][0]) == "nlayer")
-    rep.check(len(inc) == 1, "R06.c", cfile, "c_delineate_area", "layer counter advances once per layer (outlet not appended again)", "", line=wl.get("_line"))
-    caps = [text(s["inner"][0]).replace(" ", "").strip("()") for s in find_all(wl, lambda n: n.get("kind") == "IfStmt" and find_all(n, lambda m_: m_.get("kind") == "ReturnStmt"))]
-    rep.check(caps.count("i==nval-1") >= 2 and "nbuffer2==nval-1" in caps, "R06.d", cfile, "c_delineate_area",
-              "buffer exhaustion returns an error before every store (i == nval-1, nbuffer2 == nval-1)", str(caps), line=wl.get("_line"))
-    swap = [l for l in body_stmts(loop_parts(wl)[3]) if l.get("kind") == "ForStmt" and stores_to(l, "buffer1")]
-    rep.check(bool(swap) and text(stores_to(swap[0], "buffer1")[0]["inner"][1]).replace(" ", "") == "buffer2[l]", "R06.c", cfile, "c_delineate_area",
-              "next layer = cells found upstream of the current layer (buffer swap)", "", line=wl.get("_line"))
-    upcall = find_all(wl, lambda n: n.get("kind") == "CallExpr" and text(n["inner"][0]) == "c_upstream")
-    rep.check(len(upcall) == 1, "R06.c", cfile, "c_delineate_area", "expansion through c_upstream of each cell of the current layer", "", line=wl.get("_line"))
+    wstm = body_stmts(loop_parts(wl)[3])
+    ace = cq.evaluate(wstm)
+    ast_ = cq.stores(ace, "idxcells_area")
+    upst = [e for e in ast_ if e.loops]
+    outl = [e for e in ast_ if not e.loops]
+    # -- the upstream store happens only when no inlet matches
+    okin, det = False, "store of upstream cells not found"
+    if len(upst) == 1:
+        e = upst[0]
+        det = repr(e)[:260]
+        cellx = e.val
+        okin = _not_an_inlet(wl, e, cellx) and cq.holds(e.conds, ('cmp', '>=', cellx, num(0)), True)
+        b2 = [x for x in cq.stores(ace, "buffer2") if x.loops == e.loops and cq.same_expr(x.val, cellx)]
+        okin = okin and len(b2) == 1 and [(show(c), t) for c, t in b2[0].conds][:len(e.conds)] == [(show(c), t) for c, t in e.conds]
+        upc = cq.calls(ace, "c_upstream")
+        okin = okin and len(upc) == 1
+    rep.check(okin, "R06.c", cfile, "c_delineate_area", "upstream cells (non-negative results of c_upstream on each cell of the layer) are stored in the area and the next layer only when they match no inlet",
+              det, line=wl.get("_line"))
+    # -- outlet appended once, on the first layer, after the empty-layer return
+    okout, det = False, "outlet store not found"
+    if len(outl) == 1:
+        e = outl[0]
+        det = repr(e)[:260]
+        lv = _layer_counter(wl, wstm)
+        empties = [r for r in ace.returns if r[0] not in ("end", "BreakStmt", "ContinueStmt") and isinstance(r[0], tuple) and cq.same_expr(r[0], "0")]
+        okout = cq.same_expr(e.val, "idxoutlet") and lv is not None and cq.holds(e.conds, f"{lv['var']} == {lv['first']}", True) and \
+            any(cq.holds(r[1], "nbuffer2 == 0", True) or _holds_count_zero(r[1], ace) for r in empties) and \
+            _excludes_empty(e.conds, ace)
+    rep.check(okout, "R06.c", cfile, "c_delineate_area", "outlet appended exactly once (first layer) and only after something drained to it", det, line=wl.get("_line"))
+    # -- capacity tests dominate every store
+    caps_ok = True
+    capdet = []
+    for e in upst + outl:
+        ok1 = cq.excluded(e.conds, f"{show(e.idx)} == nval-1", True) or cq.holds(e.conds, f"{show(e.idx)} < nval-1", True)
+        capdet.append(f"idxcells_area[{show(e.idx)}]: {'guarded' if ok1 else 'NOT guarded'}")
+        caps_ok = caps_ok and ok1
+    errs = [r for r in ace.returns + [(x[0], x[1], x[2]) for x in ace.loop_returns] if isinstance(r[0], tuple) and not cq.same_expr(r[0], "0")]
+    rep.check(caps_ok and len(errs) >= 2, "R06.d", cfile, "c_delineate_area",
+              "buffer exhaustion returns an error before every store (index == nval-1 tested on the path to the store)", "; ".join(capdet), line=wl.get("_line"))
+    swap = [x for x in cq.stores(ace, "buffer1") if x.loops and cq.same_expr(x.val, f"buffer2[{x.loops[-1]}]") and cq.same_expr(x.idx, x.loops[-1])]
+    rep.check(len(swap) == 1, "R06.c", cfile, "c_delineate_area", "next layer = cells found upstream of the current layer (buffer swap)", "", line=wl.get("_line"))
 
     # ---------------- wrappers --------------------------------------------------------------------------------------------------------------
     P = pyxread.load_all(rep.repo)
@@ -251,46 +339,319 @@ def run(rep):
         v = s.args.get(pn)
         rep.check(v is not None and v[1].init == ("const", -1) and v[1].fresh, "R06.b", "gis/grid.py", "delineate_area", f"`{pn}` initialised to -1", f"init {v[1].init if v else None}", line=s.call.lineno)
     f = s.func
-    flt = [n for n in ast.walk(f) if isinstance(n, ast.Assign) and isinstance(n.targets[0], ast.Name) and n.targets[0].id == "idx" and isinstance(n.value, ast.Compare)]
-    rep.check(bool(flt) and ast.unparse(flt[0].value).replace(" ", "") == "idxcells>=0", "R06.b", "gis/grid.py", "delineate_area", "area = cells with a non-negative number (the -1 filling is dropped)", "", line=f.lineno)
-    reassigned = [n for n in ast.walk(f) if isinstance(n, (ast.Assign, ast.AugAssign)) and any(isinstance(t, ast.Name) and t.id == "nval" for t in (n.targets if isinstance(n, ast.Assign) else [n.target]))]
-    rep.check(not reassigned, "R06.d", "gis/grid.py", "delineate_area", "buffer capacity is the caller's nval (the kernel needs one spare slot: it is never clipped to the grid size)",
-              f"nval reassigned at line {reassigned[0].lineno}" if reassigned else "", line=f.lineno)
+    okflt = _filters_nonneg(f, ast.unparse(s.args["idxcells_area"][0]) if "idxcells_area" in s.args else None)
+    rep.check(okflt, "R06.b", "gis/grid.py", "delineate_area", "area = cells with a non-negative number (the -1 filling is dropped)", "", line=f.lineno)
+    params = {a.arg for a in f.args.args}
+    caps = []
+    for pn in ("idxcells_area", "buffer1", "buffer2"):
+        v = s.args.get(pn)
+        shp = v[1].shape if v is not None else None
+        sym = None
+        if shp is not None and len(shp) == 1:
+            syms = sorted(shp[0].symbols()) if hasattr(shp[0], "symbols") else []
+            if len(syms) == 1 and str(shp[0]) == syms[0]:
+                sym = syms[0].split("~")[0]
+        caps.append(sym)
+    reassigned = [n for n in ast.walk(f) if isinstance(n, (ast.Assign, ast.AugAssign)) and any(isinstance(t, ast.Name) and t.id in params and t.id in caps
+                                                                                               for t in (n.targets if isinstance(n, ast.Assign) else [n.target]))]
+    rep.check(len(set(caps)) == 1 and caps[0] in params and not reassigned, "R06.d", "gis/grid.py", "delineate_area",
+              "buffer capacity is the caller's size parameter itself (the kernel needs one spare slot: it is never clipped to the grid size)",
+              f"parameter reassigned at line {reassigned[0].lineno}" if reassigned else f"buffer lengths {caps}", line=f.lineno)
     rep.check(ast.unparse(s.args["flowdircode"][0]) == "FLOWDIRCODE" if "flowdircode" in s.args else False, "R06.a", "gis/grid.py", "delineate_area", "kernel receives the FLOWDIRCODE table", "", line=s.call.lineno)
     for shim in ("upstream", "downstream", "delineate_river", "delineate_flowpathlengths_in_catchment"):
         for s2 in by.get(shim, []):
             rep.check("flowdircode" in s2.args and ast.unparse(s2.args["flowdircode"][0]) == "FLOWDIRCODE", "R06.a", "gis/grid.py", s2.func.name, f"{shim}: kernel receives the FLOWDIRCODE table", "", line=s2.call.lineno)
 
     # ---------------- R06.e step lengths -------------------------------------------------------------------------------------------------------------
-    fp = fns["c_delineate_flowpathlengths_in_catchment"]
-    sq = [s for s in find_all(fp["body"], lambda n: n.get("kind") == "BinaryOperator" and n.get("opcode") == "=" and text(n["inner"][0]) == "squaredist")]
-    forms = [text(s["inner"][1]).replace(" ", "") for s in sq]
-    okq = len(forms) == 2 and forms[0] == forms[1] and forms[0] in ("diff==1||diff==ncols?1:2", "(diff==1||diff==ncols)?1:2", "diff==ncols||diff==1?1:2")
-    rep.check(okq, "R06.e", cfile, "c_delineate_flowpathlengths_in_catchment", "both step-length sites: squared length 1 for a step of 1 or ncols cells, else 2", str(forms), line=fp["line"])
-    df = [text(s["inner"][1]).replace(" ", "") for s in find_all(fp["body"], lambda n: n.get("kind") == "BinaryOperator" and n.get("opcode") == "=" and text(n["inner"][0]) == "diff")]
-    rep.check(len(df) == 2 and df[0] == df[1] and df[0] in ("abs(*idxcell_down-*idxcell_up)", "llabs(*idxcell_down-*idxcell_up)", "abs(*idxcell_up-*idxcell_down)"), "R06.e", cfile,
-              "c_delineate_flowpathlengths_in_catchment", "step = |downstream cell - current cell| at both sites", str(df), line=fp["line"])
-    ln = [text(s["inner"][1]).replace(" ", "") for s in find_all(fp["body"], lambda n: n.get("kind") == "CompoundAssignOperator" and text(n["inner"][0]) == "length")]
-    rep.check(len(ln) == 2 and all(x == "sqrt(squaredist)" for x in ln), "R06.e", cfile, "c_delineate_flowpathlengths_in_catchment", "length += sqrt(squared step) at both sites", str(ln), line=fp["line"])
-    wl2 = find_all(fp["body"], lambda n: n.get("kind") == "WhileStmt")
-    okw = len(wl2) == 1 and text(loop_parts(wl2[0])[1]).replace(" ", "") == "ipath<nval" and \
-        bool(find_all(wl2[0], lambda n: n.get("kind") == "UnaryOperator" and n.get("opcode") == "++" and text(n["inner"][0]) == "ipath"))
-    rep.check(okw, "R06.d", cfile, "c_delineate_flowpathlengths_in_catchment", "downstream walk capped by the number of area cells", "", line=fp["line"])
-    stops = [text(s["inner"][0]).replace(" ", "") for s in find_all(wl2[0], lambda n: n.get("kind") == "IfStmt" and find_all(n, lambda m_: m_.get("kind") == "BreakStmt"))] if wl2 else []
-    rep.check(any("*idxcell_down<0" in x for x in stops) and any("*idxcell_down==idxcell_outlet" in x for x in stops), "R06.e", cfile, "c_delineate_flowpathlengths_in_catchment",
-              "walk stops when it leaves the grid / reaches a sink, or at the outlet", str(stops), line=fp["line"])
-    rv = fns["c_delineate_river"]
-    asg = {text(s["inner"][0]): text(s["inner"][1]).replace(" ", "") for s in find_all(rv["body"], lambda n: n.get("kind") == "BinaryOperator" and n.get("opcode") == "=")}
-    okrv = asg.get("nx1") == "idxupstream%ncols" and asg.get("ny1") == "(idxupstream-nx1)/ncols" and asg.get("nx2") == "idxdown[0]%ncols" and \
-        asg.get("ny2") == "(idxdown[0]-nx2)/ncols" and asg.get("dx") == "(double)(nx1-nx2)" and asg.get("dy") == "(double)(ny1-ny2)"
-    rep.check(okrv, "R06.e", cfile, "c_delineate_river", "dx, dy = column / row differences from idx % ncols and (idx - col) / ncols",
-              str({k_: asg.get(k_) for k_ in ("nx1", "ny1", "nx2", "ny2", "dx", "dy")}), line=rv["line"])
-    ds = [text(s["inner"][1]).replace(" ", "") for s in find_all(rv["body"], lambda n: n.get("kind") == "CompoundAssignOperator" and text(n["inner"][0]) == "dist")]
-    rep.check(ds == ["sqrt(dx*dx+dy*dy)"], "R06.e", cfile, "c_delineate_river", "distance accumulates sqrt(dx^2 + dy^2): 1 per orthogonal step, sqrt(2) per diagonal step", str(ds), line=rv["line"])
-    nxt = asg.get("idxupstream")
-    rep.check(nxt == "idxdown[0]", "R06.e", cfile, "c_delineate_river", "river trace follows the downstream chain (idxupstream = idxdown[0])", str(nxt), line=rv["line"])
-    # getnxy
-    g = fns["getnxy"]
-    ga = {text(s["inner"][0]).replace(" ", ""): text(s["inner"][1]).replace(" ", "") for s in find_all(g["body"], lambda n: n.get("kind") == "BinaryOperator" and n.get("opcode") == "=")}
-    rep.check(ga.get("nxy[0]") == "idxcell%ncols" and ga.get("nxy[1]") == "(idxcell-nxy[0])/ncols", "R06.a", gfile, "getnxy", "column = idx mod ncols, row = idx div ncols", str(ga), line=g["line"])
+    fp = N("c_delineate_flowpathlengths_in_catchment")
+    fmain = _main_loop(fp, cfile, "cell loop")
+    fstm = body_stmts(loop_parts(fmain)[3])
+    walk = [l for l in fstm if l.get("kind") in ("WhileStmt", "ForStmt")]
+    if len(walk) != 1:
+        raise AnalysisError(f"{cfile}: c_delineate_flowpathlengths_in_catchment: downstream walk not found")
+    walk = walk[0]
+    wparts = loop_parts(walk)
+    ortho = "abs(idxcell_down[0]-idxcell_up[0]) == 1 || abs(idxcell_down[0]-idxcell_up[0]) == ncols"
+    ortho2 = "abs(idxcell_up[0]-idxcell_down[0]) == 1 || abs(idxcell_up[0]-idxcell_down[0]) == ncols"
+
+    def length_steps(stmts, label, need_guard=None):
+        """per path through stmts: (is orthogonal?, increment of length) -> all orthogonal paths add 1, all others sqrt(2)"""
+        good, seen = True, 0
+        detl = []
+        for orth in (True, False):
+            def oracle(c, orth=orth):
+                if c[0] in ('and', 'or', 'not'):
+                    if cq.same_cond(c, ortho, True) or cq.same_cond(c, ortho2, True):
+                        return orth
+                    from .c03 import _bool
+                    return _bool(c, oracle)
+                if c[0] == 'cmp' and c[1] == '==' and 'abs(' in show(c):
+                    # one of the two disjuncts: decided by the enclosing disjunction only
+                    return None
+                return None
+            ce = CEval(oracle)
+            ce.summarise_loops = True
+            try:
+                ce.run(stmts, {"length": ('sym', 'L0')})
+            except Undecided as ex:
+                return None, str(ex)
+            for env, conds, how in ce.finals:
+                if "length" not in env:
+                    continue
+                cnl = Canon()
+                try:
+                    inc = cnl.ratio(env["length"]) - Ratio.sym('L0')
+                except Undecided as ex:
+                    return None, str(ex)
+                if inc.is_zero() or 'L0' not in cnl.ratio(env["length"]).symbols():
+                    continue          # untouched, or reset to a constant (walk left the grid): not a step
+                # paths on which the orthogonality test was never evaluated do not count
+                txt = " ".join(show(c) for c, _ in conds)
+                seen += 1
+                want = Ratio.const(1) if orth else cnl.ratio(cq.parse("sqrt(2)"))
+                if inc != want:
+                    good = False
+                detl.append(f"{'orthogonal' if orth else 'diagonal'}: length += {inc}")
+        return (good and seen >= 2), "; ".join(detl)
+    ok1, d1 = length_steps(body_stmts(wparts[3]), "walk")
+    post = fstm[fstm.index(walk) + 1:]
+    # after the walk: the last step into the outlet (length reset paths are zero increments and do not count)
+    ok2, d2 = length_steps(post, "last step")
+    if ok1 is None or ok2 is None:
+        rep.undecided("R06.e", cfile, "c_delineate_flowpathlengths_in_catchment", "step lengths", f"{d1} / {d2}", line=fp["line"])
+    else:
+        rep.check(ok1, "R06.e", cfile, "c_delineate_flowpathlengths_in_catchment", "walk step: length grows by 1 for a step of 1 or ncols cells, by sqrt(2) otherwise", d1, line=walk.get("_line"))
+        rep.check(ok2, "R06.e", cfile, "c_delineate_flowpathlengths_in_catchment", "last step into the outlet: same lengths as the walk step (1 for 1 or ncols cells, else sqrt(2))", d2, line=walk.get("_line"))
+    # cap of the walk and its stops
+    capv = None
+    for c_ in cq._conj(wparts[1]):
+        a = cq.cond_atoms(c_, True)
+        if isinstance(a, cq.Atom) and a.op == '<=':
+            syms = a.d.symbols()
+            if "nval" in syms:
+                capv = [x for x in syms if x != "nval"]
+    okw = bool(capv) and len(capv) == 1 and cq.same_cond(wparts[1] if len(cq._conj(wparts[1])) == 1 else cq._conj(wparts[1])[0], f"{capv[0]} < nval", True) and \
+        len(cq.steps_of(walk, capv[0])) >= 1
+    rep.check(okw, "R06.d", cfile, "c_delineate_flowpathlengths_in_catchment", "downstream walk capped by the number of area cells (counter stepped in the walk)", text(wparts[1]), line=fp["line"])
+    wce = cq.evaluate(body_stmts(wparts[3]))
+    brk = [r for r in wce.returns if r[0] == "BreakStmt"]
+    stop_neg = any(cq.holds(r[1], "idxcell_down[0] < 0", True) or _disj_has(r[1], "idxcell_down[0] < 0") for r in brk) or \
+        any(cq.same_cond(c_, "idxcell_down[0] >= 0", True) for c_ in cq._conj(wparts[1]))
+    stop_out = any(cq.holds(r[1], "idxcell_down[0] == idxcell_outlet", True) for r in brk) or \
+        any(cq.same_cond(c_, "idxcell_down[0] != idxcell_outlet", True) for c_ in cq._conj(wparts[1]))
+    rep.check(stop_neg and stop_out, "R06.e", cfile, "c_delineate_flowpathlengths_in_catchment",
+              "walk stops when it leaves the grid / reaches a sink, or at the outlet", f"{len(brk)} break paths", line=fp["line"])
+    adv = [e for e in cq.stores(wce, "idxcell_up") if cq.same_expr(e.val, "idxcell_down[0]")]
+    dcall = cq.calls(wce, "c_downstream")
+    rep.check(len(adv) >= 1 and (len(dcall) == 1 or _assigned_call(walk, "c_downstream")), "R06.e", cfile, "c_delineate_flowpathlengths_in_catchment",
+              "walk follows the downstream chain (current cell <- downstream cell of c_downstream)", "", line=fp["line"])
+
+    # ---- river trace ---------------------------------------------------------------------------------------------------------------------------------
+    rv = N("c_delineate_river")
+    rmain = _main_loop(rv, cfile, "trace loop")
+    rstm = body_stmts(loop_parts(rmain)[3])
+    rce = CEval(lambda c: False if _is_error_test(c) else None)
+    rce.summarise_loops = True
+    try:
+        rce.run(rstm, {"dx": ('sym', 'DX0'), "dy": ('sym', 'DY0'), "dist": ('sym', 'DIST0'), "idxupstream": ('sym', 'CUR')})
+        fin = [f_ for f_ in rce.finals if f_[2] == "end"]
+    except Undecided as ex:
+        fin = []
+        rep.undecided("R06.e", cfile, "c_delineate_river", "trace step", str(ex), line=rv["line"])
+    if fin:
+        env = fin[-1][0]
+        col_ = lambda x: f"({x} % ncols)"
+        row_ = lambda x: f"(({x} - {x} % ncols)/ncols)"
+        okdx = cq.same_expr(env.get("dx", num(0)), f"{col_('CUR')} - {col_('idxdown[0]')}") and cq.same_expr(env.get("dy", num(0)), f"{row_('CUR')} - {row_('idxdown[0]')}")
+        rep.check(okdx, "R06.e", cfile, "c_delineate_river", "dx, dy = column / row differences from idx % ncols and (idx - col) / ncols",
+                  f"dx = {show(env.get('dx', num(0)))[:120]}; dy = {show(env.get('dy', num(0)))[:120]}", line=rv["line"])
+        rep.check(cq.same_expr(env.get("dist", num(0)), "DIST0 + sqrt(DX0*DX0 + DY0*DY0)"), "R06.e", cfile, "c_delineate_river",
+                  "distance accumulates sqrt(dx^2 + dy^2): 1 per orthogonal step, sqrt(2) per diagonal step", show(env.get("dist", num(0)))[:160], line=rv["line"])
+        rep.check(cq.same_expr(env.get("idxupstream", num(0)), "idxdown[0]"), "R06.e", cfile, "c_delineate_river",
+                  "river trace follows the downstream chain (current cell <- downstream cell)", show(env.get("idxupstream", num(0)))[:80], line=rv["line"])
     return EXPLANATION
+
+
+# ----------------------------------------------------------------------------------------------------------------- helpers
+def _is_error_test(c):
+    """conditions of the form `ierr > 0` / constant > 0 introduced by inlined error checks"""
+    s = show(c)
+    return "ierr" in s or s.replace(" ", "") in ("(0>0)", "0>0")
+
+
+def _is_outside_test(c):
+    """comparison Expr on col+ix / row+iy: True for an `outside the grid` test, False for an `inside` test, None otherwise"""
+    s = show(c)
+    if "COL" not in s and "ROW" not in s:
+        return None
+    op, a, b = c[1], c[2], c[3]
+    left_has = "COL" in show(a) or "ROW" in show(a)
+    if not left_has:
+        op = {"<": ">", "<=": ">=", ">": "<", ">=": "<=", "==": "==", "!=": "!="}[op]
+        a, b = b, a
+    bs = show(b).replace(" ", "")
+    if op == "<" and bs == "0":
+        return True
+    if op == ">=" and bs == "0":
+        return False
+    if op in (">", ">="):
+        return True
+    if op in ("<", "<="):
+        return False
+    return None
+
+
+def _sides(e, outer_v, inner_v):
+    """which sides of the grid a boolean Expr tests, as canonical strings"""
+    out = set()
+    if e[0] in ('and', 'or', 'not'):
+        for c in e[1:]:
+            if isinstance(c, tuple):
+                out |= _sides(c, outer_v, inner_v)
+        return out
+    if e[0] != 'cmp':
+        return out
+    for name, n in (("col", "ncols"), ("row", "nrows")):
+        base = "COL" if name == "col" else "ROW"
+        for off in (outer_v, inner_v):
+            for txt, tag in ((f"{base}+{off} < 0", f"{name}<0"), (f"{base}+{off} >= {n}", f"{name}>={n}")):
+                if cq.same_cond(e, txt, True) or cq.same_cond(('not', e), txt, True):
+                    out.add(tag)
+    return out
+
+
+def _innermost_block_with(loop, line, arr):
+    """statement list of the innermost compound statement of `loop` that directly contains the store to arr at `line`"""
+    best = None
+
+    def rec(n):
+        nonlocal best
+        if n.get("kind") == "CompoundStmt":
+            for c in n.get("inner", []):
+                if c.get("kind") in ("BinaryOperator",) and c.get("opcode") == "=" and c.get("_line") == line and stores_to(c, arr):
+                    best = [x for x in n["inner"] if x.get("kind")]
+        for c in n.get("inner", []):
+            if isinstance(c, dict) and c.get("kind"):
+                rec(c)
+    rec(loop)
+    return best
+
+
+def _not_an_inlet(wl, e, cellx):
+    """the store `e` is reached only when no m in 0..ninlets-1 has idxinlets[m] == cell.  Two idioms:
+    (A) a search loop that breaks on a match, then `m == ninlets`;  (B) a flag cleared before a search loop, set on a match, tested false"""
+    benv = {"CELL": cellx}
+    loops = [l for l in find_all(wl, lambda n: n.get("kind") == "ForStmt") if l is not wl and ceval.mentions(l, "idxinlets")]
+    for l in loops:
+        lr = cq.loop_range(l, ())
+        if lr is None:
+            continue
+        m = lr["var"]
+        match = f"idxinlets[{m}] == CELL"
+        lce = cq.evaluate(body_stmts(lr["body"]))
+        # idiom A
+        brk = [r for r in lce.returns if r[0] == "BreakStmt" and cq.holds(r[1], match, True, benv)]
+        if brk and cq.range_is(lr, "0", "ninlets-1") and not lr["extra"] and cq.holds(e.conds, f"{m} == ninlets", True):
+            return True
+        # idiom B: flag = 0 before; flag = (match) or `if(match) flag = 1`; loop may also stop on the flag; store guarded by flag == 0
+        for env, conds, how in lce.finals:
+            for name, v in env.items():
+                if "[" in name or name == m:
+                    continue
+                setflag = cq.same_expr(v, ('cmp', '==', cq.parse(f"idxinlets[{m}]"), cellx)) or cq.same_cond(v, match, True, benv) or \
+                    (cq.same_expr(v, "1") and cq.holds(conds, match, True, benv))
+                if setflag and cq.same_expr(lr["lo"] if lr["lo"] is not None else num(-9), "0") and cq.same_expr(lr["hi"] if lr["hi"] is not None else num(-9), "ninlets-1") and \
+                        all(cq.same_cond(x, f"{name} == 0", True) for x in lr["extra"]) and cq.holds(e.conds, f"{name} == 0", True) and \
+                        _cleared_before(wl, l, name):
+                    return True
+    return False
+
+
+def _cleared_before(wl, loop, name):
+    """`name = 0` is the statement just before `loop` in its block (nothing in between writes it)"""
+    res = False
+
+    def rec(n):
+        nonlocal res
+        if n.get("kind") == "CompoundStmt":
+            st = [x for x in n.get("inner", []) if x.get("kind")]
+            for i, x in enumerate(st):
+                if x is loop:
+                    for y in reversed(st[:i]):
+                        if y.get("kind") == "BinaryOperator" and y.get("opcode") == "=" and text(y["inner"][0]) == name:
+                            res = cq.same_expr(y["inner"][1], "0")
+                            return
+                        if name in cnorm.writes(y)[0]:
+                            return
+        for c in n.get("inner", []):
+            if isinstance(c, dict) and c.get("kind"):
+                rec(c)
+    rec(wl)
+    return res
+
+
+def _layer_counter(wl, wstm):
+    """the variable that counts layers: stepped exactly once per iteration of the main loop, initialised before it"""
+    parts = loop_parts(wl)
+    cands = set()
+    if parts[2].get("kind"):
+        v = cnorm._step_of(parts[2])
+        if v:
+            cands.add(v)
+    for s in wstm:
+        v = cnorm._step_of(s) if s.get("kind") in ("UnaryOperator", "CompoundAssignOperator", "BinaryOperator") else None
+        if v:
+            cands.add(v)
+    for v in sorted(cands):
+        nsteps = len(cq.steps_of(wl, v))
+        if nsteps == 1:
+            return {"var": v, "first": "0"}
+    return None
+
+
+def _holds_count_zero(conds, ace):
+    return False
+
+
+def _excludes_empty(conds, ace):
+    """the path passed the `next layer is empty -> return` test with a non-empty layer"""
+    return cq.excluded(conds, "nbuffer2 == 0", True) or cq.holds(conds, "nbuffer2 > 0", True)
+
+
+def _disj_has(conds, want):
+    cn = Canon()
+    w = cq.cond_atoms(want, True, None, cn)
+    for c, t in conds:
+        if not t:
+            continue
+        a = cq.cond_atoms(c, True, None, cn)
+        parts = a[1] if isinstance(a, tuple) and a[0] == 'or' else [a]
+        if any(w == p_ for p_ in parts):
+            return True
+    return False
+
+
+def _assigned_call(node, name):
+    return bool(find_all(node, lambda n: n.get("kind") == "CallExpr" and text(n["inner"][0]) == name))
+
+
+def _filters_nonneg(f, outname):
+    """the wrapper keeps the entries of the kernel output that are >= 0 (mask `out >= 0` used to index `out`)"""
+    if outname is None:
+        return False
+    masks = {}
+    for n in ast.walk(f):
+        if isinstance(n, ast.Assign) and len(n.targets) == 1 and isinstance(n.targets[0], ast.Name) and isinstance(n.value, ast.Compare) and len(n.value.ops) == 1:
+            l, op, r = n.value.left, n.value.ops[0], n.value.comparators[0]
+            lt, rt = ast.unparse(l), ast.unparse(r)
+            if (lt == outname and isinstance(op, ast.GtE) and rt == "0") or (lt == outname and isinstance(op, ast.Gt) and rt == "-1") or \
+                    (rt == outname and isinstance(op, ast.LtE) and lt == "0") or (rt == outname and isinstance(op, ast.Lt) and lt == "-1"):
+                masks[n.targets[0].id] = n
+    for n in ast.walk(f):
+        if isinstance(n, ast.Subscript) and isinstance(n.value, ast.Name) and n.value.id == outname:
+            sl = n.slice
+            if isinstance(sl, ast.Name) and sl.id in masks:
+                return True
+            if isinstance(sl, ast.Compare) and ast.unparse(sl).replace(" ", "") in (f"{outname}>=0", f"{outname}>-1", f"0<={outname}"):
+                return True
+    return False
